@@ -32,6 +32,7 @@ def jBool (j : Json) : P Bool :=
 def jArr (j : Json) : P (List Json) :=
   match j with
   | .arr a => pure a.toList
+  | .null => pure []          -- a nil Go slice is marshalled as null
   | _ => throw s!"not an array: {j.compress}"
 
 def jField (j : Json) (k : String) : P Json :=
